@@ -744,10 +744,10 @@ func init() {
 		defer env.close()
 		rng := newRand(16)
 		n := tierN(1500, 50000)
-		for i := 0; i < n; i++ {
+		for i := 0; i < n && !expired(); i++ {
 			c16Case(r, m, env, rng, i)
 		}
-		for i := 0; i < tierN(20, 300); i++ {
+		for i := 0; i < tierN(20, 300) && !expired(); i++ {
 			c16StartRule(r, env, rng, i)
 		}
 		r.Validated = r.Evaluations
